@@ -115,7 +115,7 @@ def ind(lines: list, k: int) -> list:
 
 
 def render(env: dict) -> dict:
-    """env: fam, M, n, up1, up2, modb, ab, bb, fnb, stm{M,A,B,F}, suffix{scope: [...]} -> {relative file name: text}."""
+    """env: fam, M, n, up1, up2, modb, ab, bb, fnb, inh, zmod, stm{M,A,B,F}, suffix{scope: [...]} -> {relative file name: text}."""
     m, n = env["M"], env["n"]
     mp = MOD_PATH[m]
     guarded = env["fam"] == "rel"
@@ -130,6 +130,8 @@ def render(env: dict) -> dict:
         text = LIB_K
         if lib == "Q":
             text += "".join(f"class {q}: pass\n" for q in ("x", "A", "B"))
+        if lib == env.get("zmod") and env.get("inh") == "i_dclass":
+            text += f"class Z:\n    class {n}: pass\n"       # the base class of A and B, imported by the site module
         if lib in ancs:
             up = env["up1"] if ancs.index(lib) == 0 else env["up2"]
             if up == "dclass":
@@ -153,17 +155,24 @@ def render(env: dict) -> dict:
         return out
 
     lines = [HEADER.rstrip("\n")] + LIB_K.rstrip("\n").split("\n")
+    # the base class Z of A and B: what it declares is inherited by A and B but in no scope
+    inh = env.get("inh", "none")
+    if inh == "i_dclass":
+        lines.append(f"from {MOD_PATH[env['zmod']]} import Z")
+    else:
+        z_body = binding_lines({"none": "none", "l_dclass": "dclass", "l_dfunc": "dfunc", "l_dattr": "dattr"}[inh], None, n, mp + ".Z", False, "Z")
+        lines += ["class Z:"] + ind(z_body or ["pass"], 1)
     lines += binding_lines(env["modb"], stm["M"], n, mp, guarded, "mod")
     a_body = binding_lines(env["ab"], stm["A"], n, mp + ".A", guarded, "A")
     b_body = binding_lines(env["bb"], stm["B"], n, mp + ".A.B", guarded, "B")
     b_body += method_block("B", mp + ".A.B", env["bb"])
     b_body += probe_lines("B", n, suf.get("B", []))
     b_body += class_sites(n, suf.get("B", []))
-    a_body += ["class B:"] + ind(b_body, 1)
+    a_body += ["class B(Z):"] + ind(b_body, 1)
     a_body += method_block("A", mp + ".A", env["ab"])
     a_body += probe_lines("A", n, suf.get("A", []))
     a_body += class_sites(n, suf.get("A", []))
-    lines += ["class A:"] + ind(a_body, 1)
+    lines += ["class A(Z):"] + ind(a_body, 1)
     lines += probe_lines("mod", n, suf.get("mod", []))
     lines += class_sites(n, suf.get("mod", []))
     files[MOD_FILE[m]] = "\n".join(lines) + "\n"
